@@ -94,36 +94,207 @@ Section Evict.
                    dist (length d) idx x <= dist (length d) idx q -> skey d x <> 0%N).
   Proof.
     intros Hidx Hocc Hnz Hb p Hp Hpi.
-    set (d0 := upd idx empty_slot d). set (n := length d) in *.
-    assert (Hl0 : length d0 = n) by (unfold d0; apply upd_length).
+    set (d0 := upd idx empty_slot d).
+    assert (Hl0 : length d0 = length d) by (unfold d0; apply upd_length).
     assert (Hk0 : skey d0 idx = 0%N) by (unfold d0; rewrite skey_upd_eq; auto).
     assert (Ho0 : occ d0 + 2 <= length d0).
     { pose proof (occ_upd idx empty_slot d Hidx) as H. fold d0 in H. rewrite nz_key in H.
       destruct (N.eqb_spec (skey d idx) 0); [contradiction|]. change (nz empty_slot) with false in H. simpl in H. lia. }
     assert (Hidx0 : idx < length d0) by (rewrite Hl0; exact Hidx).
     destruct (second_empty d0 idx Hidx0 Hk0 Ho0) as [e0 [He0 [Hez Hne]]].
-    rewrite Hl0 in He0.
-    assert (Hbefore : dist n idx idx < dist n idx e0).
-    { rewrite dist_self. destruct (dist n idx e0) eqn:E; [|lia]. apply dist_zero in E; auto. congruence. }
-    rewrite <- Hl0 in Hb.
-    destruct (bshift_frame (length d0) d0 idx e0 d0 idx idx d') as [e [He [Hze [Hpos [Hocc' [F1 F2]]]]]];
-      rewrite ?Hl0; auto.
-    - intros x Hx Hd. right. exists x. repeat split; auto.
-    - intros x Hx H0 Hd. rewrite dist_self in Hd. lia.
-    - rewrite Hl0 in Hb. exact Hb.
-    - destruct (le_lt_dec (dist n idx e) (dist n idx p)) as [Hge|Hlt].
-      + right. exists p. rewrite (F1 p Hp Hge). unfold d0. rewrite sl_upd_neq by auto.
-        repeat split; auto. intros Hqp. contradiction.
-      + destruct (F2 p Hp Hlt) as [E|[q [Hq [H1 [H2 H3]]]]]; auto.
-        right. assert (Hqi : q <> idx).
-        { intro; subst q. rewrite dist_self in H1. assert (dist n idx p = 0) by lia. apply dist_zero in H; auto. }
-        exists q. unfold d0 in H3. rewrite sl_upd_neq in H3 by auto. repeat split; auto.
-        intros _ x Hx Hx1 Hx2.
-        assert (Hxi : x <> idx).
-        { intro; subst x. rewrite dist_self in Hx1. assert (dist n idx p = 0) by lia. apply dist_zero in H; auto. }
-        assert (skey d0 x <> 0%N).
-        { apply Hocc'; auto; [|lia].
-          destruct (dist n idx x) eqn:E; [|lia]. apply dist_zero in E; auto. congruence. }
-        unfold d0 in H. rewrite skey_upd_neq in H by auto. exact H.
+    assert (Hbefore : dist (length d0) idx idx < dist (length d0) idx e0).
+    { rewrite dist_self. destruct (dist (length d0) idx e0) eqn:E; [|lia]. apply dist_zero in E; auto. congruence. }
+    assert (Hb0 : bshift mix (length d0) d0 (length d0) idx idx = Some d') by (rewrite Hl0; exact Hb).
+    assert (J1 : forall x, x < length d0 -> dist (length d0) idx idx < dist (length d0) idx x -> sl d0 x = sl d0 x) by reflexivity.
+    assert (J2 : forall x, x < length d0 -> dist (length d0) idx x <= dist (length d0) idx idx ->
+       sl d0 x = empty_slot \/
+       exists q, q < length d0 /\ dist (length d0) idx x <= dist (length d0) idx q /\
+                 dist (length d0) idx q <= dist (length d0) idx idx /\ sl d0 x = sl d0 q).
+    { intros x Hx Hd. right. exists x. repeat split; auto. }
+    assert (J3 : forall x, x < length d0 -> 0 < dist (length d0) idx x -> dist (length d0) idx x <= dist (length d0) idx idx -> skey d0 x <> 0%N).
+    { intros x Hx H0 Hd. rewrite dist_self in Hd. lia. }
+    destruct (bshift_frame (length d0) d0 idx e0 d0 idx idx d' eq_refl Hidx0 Hidx0 Hidx0 He0 Hez Hbefore (le_n _) J1 J2 J3 Hb0)
+      as [e [He [Hze [Hpos [Hocc' [F1 F2]]]]]].
+    clear J1 J2 J3 Hb0 Hbefore. rewrite Hl0 in *.
+    set (n := length d) in *.
+    destruct (le_lt_dec (dist n idx e) (dist n idx p)) as [Hge|Hlt].
+    - right. exists p. rewrite (F1 p Hp Hge). unfold d0. rewrite sl_upd_neq by auto.
+      repeat split; auto.
+    - destruct (F2 p Hp Hlt) as [E|[q [Hq [H1 [H2 H3]]]]]; auto.
+      right. assert (Hqi : q <> idx).
+      { intro; subst q. rewrite dist_self in H1. assert (dist n idx p = 0) by lia. apply dist_zero in H; auto. }
+      exists q. unfold d0 in H3. rewrite sl_upd_neq in H3 by auto. repeat split; auto.
+      intros _ x Hx Hx1 Hx2.
+      assert (Hxi : x <> idx).
+      { intro; subst x. rewrite dist_self in Hx1. assert (dist n idx p = 0) by lia. apply dist_zero in H; auto. }
+      assert (skey d0 x <> 0%N).
+      { apply Hocc'; auto; [|lia].
+        destruct (dist n idx x) eqn:E; [|lia]. apply dist_zero in E; auto. congruence. }
+      unfold d0 in H. rewrite skey_upd_neq in H by auto. exact H.
+  Qed.
+
+  (* ------------------------------------------------ the scanned region *)
+  Definition Scanned (d : list slot) (o s : nat) (skip : N) : Prop :=
+    forall p, p < length d -> dist (length d) o p < s -> skey d p = 0%N \/ skey d p = skip.
+
+  Lemma cyc_region n o idx p q s : o < n -> idx < n -> p < n -> q < n ->
+    dist n o idx = s -> dist n o p < s -> q <> idx -> dist n idx p <= dist n idx q -> dist n o q < s.
+  Proof. cyc. Qed.
+  Lemma cyc_advance n o idx s : o < n -> idx < n -> dist n o idx = s -> S s < n ->
+    dist n o (nxt n idx) = S s.
+  Proof. cyc. Qed.
+
+  Lemma del_at_data t idx : WF t -> idx < length (t_data t) -> skey (t_data t) idx <> 0%N ->
+    exists d', bshift mix (length (t_data t)) (upd idx empty_slot (t_data t)) (length (t_data t)) idx idx = Some d' /\
+               t_data (del_at mix t idx) = d'.
+  Proof.
+    intros W Hidx Hnz.
+    destruct (delete_ok mix (t_data t) idx (wf_uq mix t W) (wf_ch mix t W) Hidx Hnz) as [d' [Hb _]].
+    { pose proof (occ_le (t_data t)). destruct W. lia. }
+    exists d'. split; auto. unfold del_at. rewrite upd_length, Hb. reflexivity.
+  Qed.
+
+  Lemma evict_loop_scan skip maxdel fuel : forall t idx scanned deleted o,
+    WF t -> o < length (t_data t) -> idx < length (t_data t) -> scanned <= length (t_data t) ->
+    (scanned < length (t_data t) -> dist (length (t_data t)) o idx = scanned) ->
+    Scanned (t_data t) o scanned skip -> deleted <= maxdel ->
+    (length (t_data t) - scanned) + (maxdel - deleted) <= fuel ->
+    let r := evict_loop mix fuel t (length (t_data t)) idx scanned deleted maxdel skip in
+    snd r = maxdel \/ Scanned (t_data (fst r)) o (length (t_data (fst r))) skip.
+  Proof.
+    induction fuel; intros t idx scanned deleted o W Ho Hidx Hsc Hd HS Hdel Hf; simpl.
+    - right. assert (scanned = length (t_data t)) by lia. subst scanned. exact HS.
+    - destruct (Nat.ltb_spec scanned (length (t_data t))) as [Hlt|Hge]; simpl.
+      2:{ right. assert (scanned = length (t_data t)) by lia. subst scanned. exact HS. }
+      destruct (Nat.ltb_spec deleted maxdel) as [Hdl|Hdg]; simpl.
+      2:{ left. lia. }
+      specialize (Hd Hlt).
+      destruct (N.eqb (skey (t_data t) idx) 0 || N.eqb (skey (t_data t) idx) skip) eqn:Hk.
+      + (* advance *)
+        apply IHfuel; auto; try lia.
+        * apply nxt_lt. lia.
+        * intros Hlt'. apply cyc_advance; auto.
+        * intros p Hp Hdp. destruct (Nat.eq_dec (dist (length (t_data t)) o p) scanned) as [E|E].
+          -- assert (p = idx) by (apply (dist_inj (length (t_data t)) o p idx); auto; congruence). subst p.
+             apply orb_true_iff in Hk. destruct Hk as [Hk|Hk]; apply N.eqb_eq in Hk; auto.
+          -- apply HS; auto. lia.
+      + (* delete at the cursor; the scanned region stays clean *)
+        apply orb_false_iff in Hk. destruct Hk as [Hk0 Hks]. apply N.eqb_neq in Hk0. apply N.eqb_neq in Hks.
+        destruct (del_at_spec mix t idx W Hidx Hk0) as [W' [_ [_ [_ [Hl _]]]]].
+        destruct (del_at_data t idx W Hidx Hk0) as [d' [Hb Hd']].
+        specialize (IHfuel (del_at mix t idx) idx scanned (S deleted) o W').
+        rewrite Hl in IHfuel. apply IHfuel; auto; try lia.
+        rewrite Hd'. intros p Hp Hdp.
+        assert (Hl' : length d' = length (t_data t)) by (rewrite <- Hd'; exact Hl).
+        rewrite Hl' in Hp, Hdp.
+        assert (Hpi : p <> idx) by (intro; subst; lia).
+        assert (Hocc : occ (t_data t) + 1 <= length (t_data t)).
+        { pose proof (occ_le (t_data t)). destruct W. lia. }
+        destruct (delete_frame (t_data t) idx d' Hidx Hocc Hk0 Hb p Hp Hpi) as [E|[q [Hq [Hqi [Hdq [Hs _]]]]]].
+        * left. unfold skey. rewrite E. reflexivity.
+        * unfold skey. rewrite Hs. apply HS; auto.
+          apply (cyc_region (length (t_data t)) o idx p q scanned); auto.
+  Qed.
+
+  Lemma occ_all_zero d : (forall i, i < length d -> skey d i = 0%N) -> occ d = 0.
+  Proof.
+    induction d; simpl; intros H; auto.
+    assert (nz a = false). { specialize (H 0). unfold skey, sl in H. simpl in H. unfold nz. rewrite H by lia. reflexivity. }
+    rewrite H0. simpl. apply IHd. intros i Hi. apply (H (S i)). lia.
+  Qed.
+  Lemma occ_only_key d k : Uq d -> k <> 0%N ->
+    (forall p, p < length d -> skey d p = 0%N \/ skey d p = k) ->
+    occ d = match dget d k with Some _ => 1 | None => 0 end.
+  Proof.
+    intros HU Hk Hall. destruct (dget d k) eqn:E.
+    - apply dget_some in E. destruct (has_key _ _ _ E) as [i [Hi Hki]].
+      (* every other slot is empty *)
+      set (d1 := upd i empty_slot d).
+      assert (occ d1 = 0).
+      { apply occ_all_zero. unfold d1. rewrite upd_length. intros j Hj.
+        destruct (Nat.eq_dec j i) as [->|Hne]; [rewrite skey_upd_eq; auto|].
+        rewrite skey_upd_neq by auto. destruct (Hall j Hj) as [Hz|Hkj]; auto.
+        exfalso. apply Hne. symmetry. apply HU; auto; congruence. }
+      pose proof (occ_upd i empty_slot d Hi) as H1. fold d1 in H1. rewrite nz_key, Hki in H1.
+      destruct (N.eqb_spec k 0); [contradiction|]. change (nz empty_slot) with false in H1. simpl in H1. lia.
+    - apply occ_all_zero. intros i Hi. destruct (Hall i Hi) as [Hz|Hki]; auto.
+      exfalso. exact (dget_none _ _ E i Hi Hki).
+  Qed.
+
+  (* EvictKeysAt deletes exactly min(n, number of keys other than skip) *)
+  Theorem tevict_count t offset nmax skip : WF t ->
+    snd (tevict mix t offset nmax skip) =
+    Z.max 0 (Z.min nmax (t_size t - (if present (abs t) skip then 1 else 0))).
+  Proof.
+    intros W. pose proof (wf_len8 mix t W) as H8. unfold tevict.
+    assert (Hps : (0 <= t_size t - (if present (abs t) skip then 1 else 0))%Z).
+    { pose proof (wf_size mix t W) as Hs. unfold present, abs.
+      destruct (N.eqb_spec skip 0).
+      - destruct (t_zero t); simpl in *; lia.
+      - destruct (dget (t_data t) skip) eqn:E; [|destruct (t_zero t); simpl in *; lia].
+        apply dget_some in E. destruct (has_key _ _ _ E) as [i [Hi Hki]].
+        assert (0 < occ (t_data t)) by (apply (occ_pos _ i); auto; congruence).
+        destruct (t_zero t); simpl in *; lia. }
+    destruct (Z.leb_spec nmax 0) as [Hn|Hn]; simpl; [lia|].
+    destruct (Nat.eqb_spec (length (t_data t)) 0) as [|_]; [lia|].
+    set (n := length (t_data t)) in *.
+    set (o := Z.to_nat (offset mod Z.of_nat n)).
+    assert (Ho : o < n). { unfold o. pose proof (Z.mod_pos_bound offset (Z.of_nat n)). lia. }
+    pose proof (evict_loop_spec mix skip (Z.to_nat nmax) (n + Z.to_nat nmax) t o 0 0 W Ho (Nat.le_0_l _)) as H1.
+    pose proof (evict_loop_scan skip (Z.to_nat nmax) (n + Z.to_nat nmax) t o 0 0 o W Ho Ho (Nat.le_0_l _)) as H2.
+    fold n in H1, H2.
+    destruct (evict_loop mix (n + Z.to_nat nmax) t n o 0 0 (Z.to_nat nmax) skip) as [t1 deleted].
+    simpl in H1, H2. destruct H1 as [W1 [Hr [Hs [Hz [Hl [Hsh Hsk]]]]]].
+    assert (H2' : deleted = Z.to_nat nmax \/ Scanned (t_data t1) o (length (t_data t1)) skip).
+    { apply H2; try lia.
+      - intros _. apply dist_self.
+      - intros p _ Hp. lia. }
+    clear H2.
+    pose proof (wf_size mix t W) as Hsz. pose proof (wf_size mix t1 W1) as Hsz1. rewrite Hz in Hsz1.
+    assert (Hpres : present (abs t1) skip = present (abs t) skip) by (unfold present; rewrite Hsk; reflexivity).
+    (* occupied slots of t1 when everything was scanned *)
+    assert (Hocc1 : Scanned (t_data t1) o (length (t_data t1)) skip ->
+                    Z.of_nat (occ (t_data t1)) = if N.eqb skip 0 then 0%Z else (if present (abs t) skip then 1 else 0)%Z).
+    { intros HS.
+      assert (Hall : forall p, p < length (t_data t1) -> skey (t_data t1) p = 0%N \/ skey (t_data t1) p = skip).
+      { intros p Hp. apply HS; auto. apply dist_lt; auto. rewrite Hl. exact Ho. }
+      destruct (N.eqb_spec skip 0) as [->|Hs0].
+      - rewrite occ_all_zero; auto. intros i Hi. destruct (Hall i Hi); auto.
+      - rewrite (occ_only_key (t_data t1) skip (wf_uq mix t1 W1) Hs0 Hall).
+        rewrite <- Hpres. unfold present, abs. destruct (N.eqb_spec skip 0); [contradiction|].
+        destruct (dget (t_data t1) skip); reflexivity. }
+    (* at least the protected key is still there *)
+    assert (Hge : (Z.of_nat (occ (t_data t1)) >= if N.eqb skip 0 then 0 else (if present (abs t) skip then 1 else 0))%Z).
+    { destruct (N.eqb_spec skip 0); [lia|]. rewrite <- Hpres. unfold present, abs.
+      destruct (N.eqb_spec skip 0); [contradiction|].
+      destruct (dget (t_data t1) skip) eqn:E; [|lia].
+      apply dget_some in E. destruct (has_key _ _ _ E) as [i [Hi Hki]].
+      assert (0 < occ (t_data t1)) by (apply (occ_pos _ i); auto; congruence). lia. }
+    assert (Hp0 : N.eqb skip 0 = true -> (if present (abs t) skip then 1 else 0)%Z = zcount (t_zero t)).
+    { intros E. apply N.eqb_eq in E. subst skip. unfold present, abs. simpl. destruct (t_zero t); reflexivity. }
+    assert (Hzc : (0 <= zcount (t_zero t) <= 1)%Z) by (destruct (t_zero t); simpl; lia).
+    rewrite <- Hz in Hzc, Hsz, Hsz1, Hp0. clear Hz.
+    destruct (t_zero t1); simpl zcount in *.
+    - destruct (Nat.ltb_spec deleted (Z.to_nat nmax)) as [Hdl|Hdg]; simpl.
+      + destruct (N.eqb_spec skip 0) as [Hs0|Hs0]; simpl.
+        * destruct H2' as [E|HS]; [lia|]. specialize (Hocc1 HS). specialize (Hp0 eq_refl). lia.
+        * destruct H2' as [E|HS]; [lia|]. specialize (Hocc1 HS). lia.
+      + assert (deleted = Z.to_nat nmax) by lia.
+        destruct (N.eqb_spec skip 0) as [Hs0|Hs0]; simpl; [specialize (Hp0 eq_refl)|]; lia.
+    - simpl.
+      destruct H2' as [E|HS].
+      + destruct (N.eqb_spec skip 0) as [Hs0|Hs0]; [specialize (Hp0 eq_refl)|]; lia.
+      + specialize (Hocc1 HS). destruct (N.eqb_spec skip 0) as [Hs0|Hs0]; [specialize (Hp0 eq_refl)|]; lia.
+  Qed.
+
+  Theorem tevict_full t offset nmax skip : WF t ->
+    let r := tevict mix t offset nmax skip in
+    WF (fst r) /\
+    snd r = Z.max 0 (Z.min nmax (t_size t - (if present (abs t) skip then 1 else 0))) /\
+    t_size (fst r) = (t_size t - snd r)%Z /\
+    shrinks (abs t) (abs (fst r)) /\ abs (fst r) skip = abs t skip.
+  Proof.
+    intros W. destruct (tevict_spec mix t offset nmax skip W) as [A [_ [C [D E]]]].
+    split; [exact A|]. split; [apply tevict_count; exact W|]. split; [exact C|]. split; [exact D|exact E].
   Qed.
 End Evict.
